@@ -41,6 +41,9 @@ def cases(tier, seed):
         for r in range(rep):
             out.append({"kind": "spectrum", "cls": "spectrum:" + pat, "pat": pat, "idx": idx, "seed": seed, "maxn": maxn})
             idx += 1
+    for r in range(12 if tier == "quick" else 80):
+        out.append({"kind": "spectrum", "cls": "spectrum:simple", "pat": "simple", "idx": idx, "seed": seed, "maxn": maxn, "n": 2 + r % 5, "history": True})
+        idx += 1
     # size ladder beyond every plausible blocking threshold (panel widths 8 / 16 / 32, sizes n with n-1 or n-2 a multiple of 16)
     ladder = [9, 12, 16, 17, 18, 20, 24, 33] if tier == "quick" else list(range(9, 36)) + [40, 48, 49, 50, 64, 65, 66]
     for k, n in enumerate(ladder):
@@ -230,6 +233,11 @@ def _spectrum(spec, ctx, R):
     A, _ = refq.hermitian_with_eigs(rng, e)
     tags = truth_tags(e)
     ctx.distinct(A, nontrivial=n >= 2 and refq.fro(A) > 0)
+    if spec.get("history"):
+        for lab, X in gen.history_forms(A, hermitian=True):
+            judge(ctx, R, X, "history:" + lab, ["history"])
+        ctx.hit("history:one_buffer_many_calls")
+        return
     if spec.get("pow2"):
         ctx.hit("scale:pow2_extreme")
         judge(ctx, R, A, "prescribed:scaled_2^%d" % spec["pow2"], tags + ["extreme_scale"], eig_truth=e, pow2=spec["pow2"])
